@@ -28,6 +28,11 @@ NORMALISERS = {'lower', 'upper', 'casefold', 'swapcase', 'title', 'capitalize', 
 
 def check(run):
     R = run
+    R.rule('C10.shared', 'objects created once per class / per function definition (class-level attributes, parameter '
+           'defaults) are only read: no buffer, validator, poll object, header list or option dict is shared between '
+           'connections', 2)
+    from .common import shared_state
+    shared_state(R, 'C10.shared')
     R.rule('C10.gate', 'every normal return of on_response passed the status/Upgrade/Accept-present/Accept-equal '
                        'tests; failures are HandshakeErrors; Ready only in the else-arm with on_response\'s results '
                        'unswapped; nothing is yielded after Rejected', 8)
@@ -40,6 +45,8 @@ def check(run):
                         'quantity', 5)
     R.rule('C10.headers', 'header names are lower-cased at insert and at lookup', 2)
     gate(R)
+    from .common import message_templates
+    message_templates(R, 'C10.gate')
     challenge(R)
     key(R)
     request(R)
@@ -534,6 +541,32 @@ def headers(R):
     R.ob('C10.headers', 'undecodable header bytes are not dropped', not bad,
          'Response decodes header bytes with errors="ignore": bytes >= 0x80 inserted into a header value vanish, so a '
          'wrong Sec-WebSocket-Accept can compare equal', func=f, node=(bad[0] if bad else None), construct='header decode errors=ignore')
+    # a folded value is trimmed as a whole: pieces are joined (with the single blank that folding inserts) and only
+    # then stripped - trimming pieces alone leaves that blank in front when the first piece is empty
+    vals = []
+    for s_ in own_nodes(f.node):
+        if isinstance(s_, ast.Assign) and any(U(t) == 'self.headers' for t in s_.targets):
+            v = s_.value
+            if isinstance(v, ast.DictComp):
+                vals.append(v.value)
+            elif isinstance(v, ast.Call) and v.args and isinstance(v.args[0], (ast.GeneratorExp, ast.ListComp)) \
+                    and isinstance(v.args[0].elt, ast.Tuple) and len(v.args[0].elt.elts) == 2:
+                vals.append(v.args[0].elt.elts[1])
+            elif isinstance(v, ast.Name):
+                # a dict filled item by item
+                items = [s2.value for s2 in own_nodes(f.node) if isinstance(s2, ast.Assign) and any(
+                    isinstance(t, ast.Subscript) and isinstance(t.value, ast.Name) and t.value.id == v.id for t in s2.targets)]
+                need(items, 'Response.__init__: cannot see how %s is filled' % v.id)
+                vals.extend(items)
+            else:
+                vals.append(v)
+    need(vals, 'Response.__init__: self.headers assignment not found')
+    for v in vals:
+        ms = _methods(v)
+        R.ob('C10.headers', 'header value trimmed after joining its pieces', bool(ms) and ms[0] == 'strip' and 'join' in ms,
+             'the stored header value `%s` is not the whole joined value stripped: a value that starts on a continuation '
+             'line keeps the blank inserted by unfolding (" websocket", " <digest>") and a correct reply is rejected' % U(v),
+             func=f, node=v, construct='header value trimming')
     q2 = 'response.Response.get'
     f2 = R.func(q2)
     rets = [s for s in own_nodes(f2.node) if isinstance(s, ast.Return)]
